@@ -29,6 +29,7 @@ def run(s):
     for t in CLOSED + GEOS:
         ty = {"geometry": "Obj:" + G + t}
         tasks.append(task(v2, f"buffer_geometry[{t}]", lambda ty=ty, t=t: v2.verify("BufferGeometry", "C11", types=ty, tag=f"[{t}]")))
+        tasks.append(task(v2, f"buffer_geometry/bounds[{t}]", lambda ty=ty, t=t: v2.verify("BufferGeometryBounds", "C11", types=ty, tag=f"/bounds[{t}]")))
     v3 = setup()
     v3.use("BufferGeometry")
     for t in CLOSED:
